@@ -112,11 +112,13 @@ def programs(draw):
     # same trace directory (a re-run): the stream must still hold only this run's events
     prev = draw(st.lists(one_op(), min_size=0, max_size=10)) if draw(st.integers(0, 4)) == 0 else None
     return {"ops": ops, "tmpdir": draw(st.sampled_from([False, False, False, False, False, True, True, "same", "alias"])),
-            "short": draw(st.sampled_from([None, None, None, "half", "one"])), "prev": prev}
+            "short": draw(st.sampled_from([None, None, None, "half", "one"])), "prev": prev,
+            # order in which the event builder functions (clock, mcv, payload) are called
+            "order": draw(st.sampled_from([0, 0, 1, 2, 3]))}
 
 
 def script_lines(case, tid=77):
-    lines = ["MODE turn", "P init 1 %s 5" % rt.hx("node.1"), "T0 init %d" % tid]
+    lines = ["MODE turn", "ORDER %d" % case.get("order", 0), "P init 1 %s 5" % rt.hx("node.1"), "T0 init %d" % tid]
     for op in case["ops"]:
         if op[0] == "ev":
             lines.append("T0 ev %s %s %s" % (rt.hx(op[1]), op[2], " ".join(op[3:])))
